@@ -90,7 +90,9 @@ fn check_hole_search(min_cursor: usize) {
             assert!(ei == LINES || !avail(ei), "C34.hole_search.hole_is_maximal");
         }
     }
-    assert!(buf.0 == img, "C34.hole_search.does_not_write_line_marks");
+    let w: usize = kani::any();
+    kani::assume(w < LINES);
+    assert!(buf.0[w] == img[w], "C34.hole_search.does_not_write_line_marks");
     kani::cover!(r.is_none() && c0 == min_cursor, "C34.cover.no_hole_after_cursor");
     kani::cover!(r.is_some() && r.unwrap().1.start().as_usize() == b + Block::BYTES, "C34.cover.hole_reaches_block_end");
     kani::cover!(r.is_some() && r.unwrap().0.start().as_usize() > b + (c0 << LOG_LINE) && c0 > 0, "C34.cover.hole_after_live_lines");
